@@ -126,6 +126,43 @@ def with_odd_docstring(rng, src):
     return text, shape
 
 
+# annotations written as STRING constants (forward references: `root: "Tree" = None`, `def f(a: "Optional[int]")`): the
+# property of such a parameter is that string constant, and it is what must be found at the addressed output position
+# (stratum string-annotations: some annotations of the input module - less often of the output module - are quoted; the
+# quoted text is the annotation itself or the name of something defined later / elsewhere)
+FORWARD_REFS = ["Tree", "Optional[Tree]", "Config", "List[Node]", "np.ndarray"]
+P_STRING_ANN_INPUT = 0.14
+P_STRING_ANN_OUTPUT = 0.04
+
+
+def with_string_annotations(rng, src, p_each=0.6):
+    """src with some of its annotations (arguments, annotated assignments) replaced, in the text, by a string constant;
+    everything else keeps its text.  -> (text, number of annotations quoted); (src, 0) when nothing fits"""
+    try:
+        tree = ast.parse(src)
+    except SyntaxError:
+        return src, 0
+    lines = src.split("\n")
+    if any(not ln.isascii() for ln in lines):      # col_offset counts bytes
+        return src, 0
+    anns = [a for a in annotations_of(tree) if a.lineno == a.end_lineno and not isinstance(a, ast.Constant)]
+    anns = [a for a in anns if rng.random() < p_each] or (anns and [rng.choice(anns)])
+    n = 0
+    for a in sorted(anns, key=lambda a: (a.lineno, a.col_offset), reverse=True):
+        ln = lines[a.lineno - 1]
+        inner = ln[a.col_offset:a.end_col_offset] if rng.random() < 0.5 else rng.choice(FORWARD_REFS)
+        if '"' in inner or "\\" in inner:
+            continue
+        lines[a.lineno - 1] = ln[:a.col_offset] + '"' + inner + '"' + ln[a.end_col_offset:]
+        n += 1
+    text = "\n".join(lines)
+    try:
+        ast.parse(text)
+    except SyntaxError:
+        return src, 0
+    return (text, n) if n else (src, 0)
+
+
 def _defs_with_depth(node, depth):
     for n in getattr(node, "body", []):
         if isinstance(n, (ast.FunctionDef, ast.ClassDef)):
@@ -499,6 +536,9 @@ def gen(rng, n, tier="quick"):
             odd = None
             if rng.random() < P_ODD_DOCSTRING:
                 src, odd = with_odd_docstring(rng, src)
+            nq = 0
+            if rng.random() < P_STRING_ANN_INPUT / 2:
+                src, nq = with_string_annotations(rng, src)
             tree = ast.parse(src)
             k = rng.choice([1, 1, 1, 2])
             ips, ops = choose_pairs(tree, tree, k)
@@ -506,12 +546,18 @@ def gen(rng, n, tier="quick"):
             wrap = rng.choice(WRAPS[:3]) if rng.random() < 0.6 else None
             add_call([False, src, ips, src, ops, wrap, True], "noeval", "pairs-%d" % k,
                 "wrap" if wrap else "nowrap", "same-file", *([shape] if shape else []),
-                *(["odd-docstring:" + odd] if odd else []))
+                *(["odd-docstring:" + odd] if odd else []), *(["string-annotations"] if nq else []))
         else:
             isrc, osrc = module(SP_INPUTS), module(SP_OUTPUTS)
             odd = None
             if rng.random() < P_ODD_DOCSTRING:
                 osrc, odd = with_odd_docstring(rng, osrc)
+            nq = 0
+            if rng.random() < P_STRING_ANN_INPUT:
+                isrc, nq = with_string_annotations(rng, isrc)
+            if rng.random() < P_STRING_ANN_OUTPUT:
+                osrc, nq2 = with_string_annotations(rng, osrc, p_each=0.3)
+                nq += nq2
             itree, otree = ast.parse(isrc), ast.parse(osrc)
             k = rng.choice([1, 1, 1, 2]) if odd else rng.choice([1, 1, 2, 2, 3])
             ips, ops = choose_pairs(itree, otree, k)
@@ -528,7 +574,8 @@ def gen(rng, n, tier="quick"):
             if rng.random() < 0.45:
                 wrap = rng.choice(WRAPS[:3]) if rng.random() < 0.8 else rng.choice(WRAPS)
             add_call([False, isrc, ips, osrc, ops, wrap], "noeval", "pairs-%d" % k,
-                "wrap" if wrap else "nowrap", *([shape] if shape else []), *(["odd-docstring:" + odd] if odd else []))
+                "wrap" if wrap else "nowrap", *([shape] if shape else []), *(["odd-docstring:" + odd] if odd else []),
+                *(["string-annotations"] if nq else []))
     return cases[:n]
 
 
